@@ -34,7 +34,7 @@ PROFILES = {
     'C02': gen.profile(p_fail=0.0, p_retry=0.25, p_rec_nested=0.4, p_rec=0.2, p_share_lazy=0.4, p_sw=0.3),
     'C03': gen.profile(p_rec=0.3, p_share=0.5, p_rec_nested=0.4, p_generic=0.08),
     'C04': gen.profile(p_share=0.75, n_max=11, p_sw=0.22, p_oneof=0.2, p_rec=0.1),
-    'C05': gen.profile(p_fail=0.35, p_retry=0.3, p_lazy_fail_shape=0.12, p_fatal=0.08),
+    'C05': gen.profile(p_fail=0.35, p_retry=0.3, p_lazy_fail_shape=0.2, p_fatal=0.08),
     'C07': gen.profile(p_fail=0.2, p_generic=0.12, p_rec=0.25, p_rec_paths_shape=0.12),
     'C08': gen.profile(p_fail=0.15, p_rec=0.25, p_generic=0.12, p_rec_paths_shape=0.08),
     'C09': gen.profile(p_sw=0.45, p_oneof=0.1, p_rec=0.12, p_share_decider=0.5, p_unnamed_switch=0.4, p_share_lazy=0.4, p_lazy_fail_shape=0.12),
@@ -146,13 +146,14 @@ def gen_prog(rng, prop, hostile_ok=True):
     if hostile_ok and rng.random() < (0.3 if prop == 'C09' else HOSTILE_SHARE):
         fam = rng.choice((['switch_unknown_label'] * 3 if prop == 'C09' else []) + HOSTILE_FAMILIES + (['dup_param'] if prop == 'C03' else [])
                          + (['rec_inner', 'rec_inner'] if prop in ('C01', 'C03', 'C09', 'C10', 'C11') else [])
-                         + (['rec_outside_consumer'] * 2 if prop in ('C01', 'C03', 'C11') else []))
+                         + (['rec_outside_consumer'] * 2 if prop in ('C01', 'C03', 'C04', 'C11') else []))
         if fam == 'rec_inner':
             prof['rec_inner'] = True
             prof['p_rec'] = max(prof['p_rec'], 0.35)
         elif fam == 'rec_outside_consumer':
             prof['hostile'] = fam
             prof['p_rec'] = max(prof['p_rec'], 0.4)
+            prof['p_rec_parallel_shape'] = 0.5
         else:
             prof['hostile'] = fam
     if rng.random() < 0.15:
